@@ -232,7 +232,7 @@ Lemma step_frame : forall st h u s,
   (exists r, find_row u (s_rows st) = Some r /\ core_of_row r = Ok s) ->
   store_ok (step st h) /\ (exists r, find_row u (s_rows (step st h)) = Some r /\ core_of_row r = Ok s).
 Proof.
-  intros st h u s F Nd [r [Fr Cr]]. destruct h as [v o n s' l| |u'|u'|]; simpl.
+  intros st h u s F Nd [r [Fr Cr]]. destruct h as [v o n s' l| |u'|u'| |]; simpl.
   - destruct (srv_register v o n s' l st) as [[st' u']|] eqn:R; [|split; [exact F|exists r; split; assumption]].
     destruct (register_store_ok _ _ _ _ _ _ _ _ F R) as [F' _]. split; [exact F'|].
     unfold srv_register in R. inv_bind R. injection R as <- <-. simpl. exists r. split; [|exact Cr].
@@ -244,6 +244,7 @@ Proof.
   - split; [unfold store_ok in *; simpl; apply remove_row_bound; exact F|].
     simpl. rewrite find_remove_row by (simpl in Nd; congruence). exists r. split; assumption.
   - split; [exact F|exists r; split; assumption].
+  - split; [unfold store_ok in *; simpl; eapply Forall_impl; [|exact F]; simpl; intros; lia|exists r; split; assumption].
 Qed.
 
 Lemma run_frame : forall h st u s,
@@ -273,10 +274,11 @@ Lemma store0_ok : store_ok store0. Proof. constructor. Qed.
 Lemma run_store_ok : forall h st, store_ok st -> store_ok (run st h).
 Proof.
   induction h as [|x h IH]; intros st F; simpl; [exact F|]. apply IH.
-  destruct x as [v o n s' l| |u'|u'|]; simpl; try exact F.
+  destruct x as [v o n s' l| |u'|u'| |]; simpl; try exact F.
   - destruct (srv_register v o n s' l st) as [[st' u']|] eqn:R; [|exact F]. apply (register_store_ok _ _ _ _ _ _ _ _ F R).
   - unfold store_ok in *; simpl; apply update_row_bound; exact F.
   - unfold store_ok in *; simpl; apply remove_row_bound; exact F.
+  - unfold store_ok in *; simpl; eapply Forall_impl; [|exact F]; simpl; intros; lia.
 Qed.
 
 (* a restart changes nothing that is stored *)
